@@ -69,6 +69,8 @@ def run(ctx):
     ctx.explanation = __doc__
     ctx.rule = "obligations = table facts (35 entries × key/symbol/kind, disjointness, aliasing) + dominance facts of the dispatcher + identity facts of the literal path; non-trivial = needs dominance / def-use reasoning rather than reading a constant"
     ctx.trusted = ["rustc MIR construction", "phf lookup compares the full key (hash + equality on the stored key)", "serde_json::Value::clone is structural identity", "spec/operators.json transcribes the statement"]
+    from . import manifest as _MF
+    _MF.same_library_clause(ctx, "K3.number-model")
     spec_doc = json.load(open(os.path.join(VERIF, "spec", "operators.json")))
     spec = spec_doc["operators"]
     cfgs = ["default"] if ctx.tier == "quick" else ["default", "cmdline", "python", "wasm"]
